@@ -1127,7 +1127,7 @@ def _statics(prog, chk, R):
             chk.ob('R08.6', f, x.get('ln', f.ln), ok,
                    'a static field lives once, in the class that declares it: the storage subscripted is the owner\'s, at the found field\'s offset (%s)' % why,
                    key='static:access:%s:%s' % (f.short, root.get('name')))
-    chk.count('static storage accesses', n, 8)
+    chk.count('static storage accesses', n, 4)
     finder = [f for f in fns if f.short == 'findStaticFieldWithOwner']
     if len(finder) != 1:
         raise AnalysisBroken('findStaticFieldWithOwner not found')
